@@ -1333,7 +1333,7 @@ def run(ctx: "vlib.Ctx") -> None:
             clamp_stage(ctx, pool)
             frag_stage(ctx, pool)
         # ---- S
-        F = search_stage(ctx, pool)
+        F = search_stage(ctx, pool) if "S" in stages else Findings()
     finally:
         t_close = time.time()
         pool.close()
@@ -1389,7 +1389,8 @@ COQ_TAGS = ["LITERAL_NONE", "LITERAL_INT", "LITERAL_STR", "LIST_GEN", "LIST_INT"
             "LIST_EXPR", "RETURN_STMT", "WHILE_STMT", "COMPARISON_EXPR", "BOOL_OP_EXPR", "PASS_STMT", "UNARY_EXPR", "FOR_STMT",
             "CONDITIONAL_EXPR", "FUNC_DEF_STMT", "CLASS_DEF", "DICT_STR_GEN", "DECORATOR", "SET_EXPR", "DICT_EXPR", "INDEX_EXPR",
             "SLICE_EXPR", "STAR_EXPR", "LAMBDA_EXPR", "OPERATOR_ASSIGNMENT_STMT", "BREAK_STMT", "CONTINUE_STMT", "GLOBAL_DECL",
-            "NONLOCAL_DECL", "DEL_STMT", "ASSERT_STMT", "RAISE_STMT", "IMPORT", "IMPORT_FROM", "IMPORT_ALL", "WITH_STMT", "TRY_STMT"]
+            "NONLOCAL_DECL", "DEL_STMT", "ASSERT_STMT", "RAISE_STMT", "IMPORT", "IMPORT_FROM", "IMPORT_ALL", "WITH_STMT", "TRY_STMT",
+            "TEMP_NODE", "UNBOUND_TYPE", "UNION_TYPE"]
 BINOP_C = {"+": "Add", "-": "Sub", "*": "Mult", "@": "MatMult", "/": "Div", "%": "Mod", "**": "Pow", "<<": "LShift", ">>": "RShift",
            "|": "BitOr", "^": "BitXor", "&": "BitAnd", "//": "FloorDiv"}
 CMPOP_C = {"==": "Eq", "!=": "NotEq", "<": "Lt", "<=": "LtE", ">": "Gt", ">=": "GtE", "is": "Is", "is not": "IsNot", "in": "In", "not in": "NotIn"}
@@ -1495,8 +1496,26 @@ def cq_stmts(l: list) -> str:
     return r
 
 
+def cq_ty(t: list) -> str:
+    k = t[0]
+    if k == "TyName":
+        return f"(TyName {cq_pos(t[1])} {cq_s(t[2])})"
+    if k == "TyNone":
+        return f"(TyNone {cq_pos(t[1])})"
+    if k == "TySub":
+        a = "TNil"
+        for x in reversed(t[4]):
+            a = f"(TCons {cq_ty(x)} {a})"
+        return f"(TySub {cq_pos(t[1])} {cq_s(t[2])} {'true' if t[3] else 'false'} {a})"
+    if k == "TyUnion":
+        return f"(TyUnion {cq_pos(t[1])} {cq_ty(t[2])} {cq_ty(t[3])})"
+    raise ValueError(k)
+
+
 def cq_stmt(s: list) -> str:
     k = s[0]
+    if k == "SAnnAssign":
+        return f"(SAnnAssign {cq_pos(s[1])} {cq_expr(s[2])} {cq_ty(s[3])} {cq_oe(s[4])})"
     if k == "SClass":
         kw = "KNil"
         for x in reversed(s[4]):
@@ -1688,6 +1707,9 @@ FRAG_FIXED = [
     "a[b:c:d].e\n", "x[0] = 1\n", "a, *b = c\n", "[*a, b]\n", "(*a,)\n", "f(*a)[*b]\n", "*a, b = c\n", "for x, *y in z: pass\n",
     "lambda: 1\n", "f = lambda x, y=1, *a, k, **kw: x\n", "lambda x: (x)\n", "(lambda: a)()\n", "f(lambda x, /: x, key=lambda: 0)\n", "lambda *, k=(1, 2): k\n",
     "x = lambda a: lambda b: a + b\n", "lambda __x, y: 0\n", "def f(a=lambda: 1): pass\n",
+    "x: int\n", "x: int = 1\n", "x: a.b.C = f()\n", "x: None = None_\n", "x: list[int] = []\n", "x: dict[str, list[a.B]]\n", "x: A | B\n",
+    "x: A | B | None = 1\n", "x: t[()]\n", "x: t[A | B, None]\n", "(x): int = 1\n", "a.b: int = 1\n", "a[0]: C\n", "x: (int)\n", "x: t[\n  A,\n  B]\n",
+    "class K:\n    y: int\n    z: Opt[K] = None_\n", "x: 'int'\n", "x: 1\n", "x: t[1]\n", "x: f()\n",
 ]
 
 
@@ -1769,6 +1791,19 @@ def gen_frag_programs(rng: "vlib.Rng", n: int) -> list[str]:
         # sometimes leave bare (precedence decides), mostly parenthesise to keep the intended tree
         return f"({e})"
 
+    def tyexpr(d: int) -> str:
+        k = rng.choice(["n", "n", "dot", "none", "sub", "sub", "union"]) if d > 0 else rng.choice(["n", "dot", "none"])
+        if k == "n":
+            return rng.choice(["int", "str", "A", "T"])
+        if k == "dot":
+            return rng.choice(["a.B", "m.n.C"])
+        if k == "none":
+            return "None"
+        if k == "sub":
+            args = [tyexpr(d - 1) for _ in range(rng.randint(0, 3))]
+            return rng.choice(["list", "t.Dict", "G"]) + "[" + (", ".join(args) if args else "()") + ("," if len(args) == 1 and rng.random() < 0.2 else "") + "]"
+        return f"{tyexpr(d - 1)} | {tyexpr(d - 1)}"
+
     def stmt(d: int, ind: str) -> list[str]:
         k = rng.choice(["expr", "expr", "assign", "return", "pass", "while", "for", "if", "if", "def", "def", "class", "simple", "simple", "with", "try", "try"]) if d > 0 \
             else rng.choice(["expr", "assign", "pass", "return", "simple"])
@@ -1777,7 +1812,8 @@ def gen_frag_programs(rng: "vlib.Rng", n: int) -> list[str]:
                 f"x {rng.choice(bins)}= {expr(1)}", f"a.b += {expr(1)}", "break", "continue", "global g1, g2", "nonlocal n1",
                 f"del {atom(1)}", f"del a, {atom(1)}.x", f"assert {expr(1)}", f"assert {expr(1)}, {expr(1)}", "raise", f"raise {expr(1)}",
                 f"raise {expr(1)} from {expr(1)}", "import m1", "import m1.m2 as m3, m4", "from m1 import n1, n2 as n3", "from . import n1",
-                "from ..m1.m2 import (n1,)", "from m1 import *", f"a, *b = {expr(1)}", f"x[{expr(1)}] = {expr(1)}"])]
+                "from ..m1.m2 import (n1,)", "from m1 import *", f"a, *b = {expr(1)}", f"x[{expr(1)}] = {expr(1)}",
+                f"v: {tyexpr(2)}", f"v: {tyexpr(2)} = {expr(1)}", f"a.b: {tyexpr(1)} = {expr(1)}"])]
         if k == "expr":
             return [ind + expr(2)]
         if k == "assign":
